@@ -61,6 +61,26 @@ theorem disjointSamplesT_window (perm : List Nat) (size reps i : Nat) (hi : i < 
   rw [Nat.succ_mul] at this
   omega
 
+/-- **C05 (`_make_split`):** with training data wanted, the user-based split is the model's `userSplit` (the subject of
+    `userSplit_test`, `userSplit_no_leak`, `userSplit_other_users`); with `test_only` the test side is the same and there is no training data -/
+theorem makeSplitT_eq {β} (recs : List (IRec β)) (test_us : List Nat) (method : Nat → List (IRec β) → List (IRec β)) :
+    makeSplitT recs test_us method false = userSplit recs test_us method := by
+  unfold makeSplitT userSplit
+  simp
+
+theorem makeSplitT_test_only {β} (recs : List (IRec β)) (test_us : List Nat) (method : Nat → List (IRec β) → List (IRec β)) :
+    makeSplitT recs test_us method true = ((userSplit recs test_us method).1, []) := by
+  unfold makeSplitT userSplit
+  simp
+
+/-- **C05 (`crossfold_users`):** every user position of the shuffled array falls into exactly one part (`arraySplit_flatten`), and each
+    part's split is the model's `userSplit` for the users at those positions -/
+theorem crossfoldUsersT_eq {β} (recs : List (IRec β)) (users perm : List Nat) (k : Nat) (method : Nat → List (IRec β) → List (IRec β)) :
+    crossfoldUsersT recs users perm k method false
+      = (arraySplit perm k).map (fun ts => userSplit recs (ts.map (fun j => users.getD j 0)) method) := by
+  unfold crossfoldUsersT
+  simp only [makeSplitT_eq]
+
 #print axioms makePairT_eq
 #print axioms crossfoldRecordsT_eq
 end LK.SplitOps
